@@ -26,8 +26,10 @@
    the run), [have] the sorted list of revisions stored in the target repository.
    The machine is parameterised by the access mode [cfg] only where the real code paths are
    KNOWN to differ (notes/C32.md): operations that need VFS under BRZ_NO_SMART_VFS, and two
-   discrepancies reported as candidate findings (null: dropped by the remote get_parent_map;
-   Repository.iter_revisions answers with the inventory serializer number).  No proofs here. *)
+   discrepancies that are known findings (null: dropped by the remote get_parent_map; the exception
+   class of generate_revision_history on an absent revision).  A third one (Repository.iter_revisions
+   answering with the inventory serializer number: KeyError in get_revision on rich-root knit/pack
+   repositories) was repaired in /repo 9cb1028; GetRev is mode-independent since.  No proofs here. *)
 From Coq Require Import String List Arith Bool ZArith.
 From BV Require Import Lib.Obs Lib.Dag Theory.DagFacts.
 Import ListNotations.
@@ -38,7 +40,6 @@ Open Scope list_scope.
 Record cfg := mkCfg {
   remote : bool;        (* through the smart server *)
   vfs : bool;           (* VFS verbs enabled on the server *)
-  revser_ok : bool;     (* the repository's inventory serializer number names a revision serializer *)
   hpss : bool           (* the server knows the post-1.12 verbs (false: the client takes its VFS fallbacks) *)
 }.
 
@@ -225,8 +226,7 @@ Definition step (c : cfg) (x : st) (o : op) : obs * st :=
       else (OT "not-held", x)
   | ParentMap keys => (parent_map c x keys, x)
   | GetRev r =>
-      if remote c && hpss c && negb (revser_ok c) then (OE "KeyError", x)   (* candidate finding C32-iter-revisions-serializer *)
-      else if memb r (have x) then (OL [olist onat (parents (g x) r); obool true], x)
+      if memb r (have x) then (OL [olist onat (parents (g x) r); obool true], x)
       else (OE "NoSuchRevision", x)
   | Lri => (OL [onat (revno x); otip (tip x)], x)
   | RevnoOf r =>
@@ -269,12 +269,12 @@ Definition init_state (g0 : dag) (init : option revid) : st :=
                    (match distance_to_null g0 t with Some n => n | None => 0 end) [] [] false
   end.
 
-Definition cfg_local (rs : bool) := mkCfg false true rs true.
-Definition cfg_vfs (rs : bool) := mkCfg true true rs true.
-Definition cfg_novfs (rs : bool) := mkCfg true false rs true.
-Definition cfg_old (rs : bool) := mkCfg true true rs false.     (* a server without the post-1.12 verbs *)
+Definition cfg_local := mkCfg false true true.
+Definition cfg_vfs := mkCfg true true true.
+Definition cfg_novfs := mkCfg true false true.
+Definition cfg_old := mkCfg true true false.     (* a server without the post-1.12 verbs *)
 
-Definition run_case (g0 : dag) (init : option revid) (rs old : bool) (ops : list op) : obs :=
+Definition run_case (g0 : dag) (init : option revid) (old : bool) (ops : list op) : obs :=
   let x := init_state g0 init in
-  OL ([OL (run (cfg_local rs) x ops); OL (run (cfg_vfs rs) x ops); OL (run (cfg_novfs rs) x ops)]
-      ++ (if old then [OL (run (cfg_old rs) x ops)] else [])).
+  OL ([OL (run cfg_local x ops); OL (run cfg_vfs x ops); OL (run cfg_novfs x ops)]
+      ++ (if old then [OL (run cfg_old x ops)] else [])).
